@@ -111,10 +111,23 @@ func runNative(tmp, overlayPath, pkg string, vecs []replayVector) (map[int][2]st
 	if err := os.WriteFile(vf, data, 0o644); err != nil {
 		return nil, "", err
 	}
-	cmd := exec.Command("go", "test", "-tags=verif", "-vet=off", "-count=1", "-v", "-run", "^TestZZVerifReplay$", "-overlay", overlayPath, "-timeout", "600s", pkg)
+	// compile the test binary (the package directory may exist only in the overlay, so the
+	// binary is run from the repository root rather than through `go test`)
+	bin := filepath.Join(tmp, "replay-"+sanitizePkg(pkg)+".test")
+	var out bytes.Buffer
+	if _, err := os.Stat(bin); err != nil {
+		build := exec.Command("go", "test", "-c", "-tags=verif", "-vet=off", "-overlay", overlayPath, "-o", bin, pkg)
+		build.Dir = repoDir
+		build.Env = goEnv()
+		build.Stdout = &out
+		build.Stderr = &out
+		if err := build.Run(); err != nil {
+			return nil, out.String(), fmt.Errorf("native replay build failed: %v", err)
+		}
+	}
+	cmd := exec.Command(bin, "-test.run", "^TestZZVerifReplay$", "-test.v", "-test.timeout", "600s")
 	cmd.Dir = repoDir
 	cmd.Env = append(goEnv(), "VERIF_REPLAY_FILE="+vf)
-	var out bytes.Buffer
 	cmd.Stdout = &out
 	cmd.Stderr = &out
 	err := cmd.Run()
@@ -221,4 +234,8 @@ func cmdReplay(args []string) int {
 		}
 	}
 	return 0
+}
+
+func sanitizePkg(p string) string {
+	return strings.NewReplacer("/", "_", ".", "_").Replace(p)
 }
